@@ -21,8 +21,8 @@ LEVEL = "model_checking"
 FANOUT_CHUNK = 2
 RULE = (
     "fault kinds {NaN/inf in ra|dec|weight|redshift (float64 and object columns); columns of unequal length (HDF5: which column x shorter/longer by 1..3 x chunk sizes that do / do not divide the lengths); missing column; patch id "
-    "-1|32768|65538|-65535 (int64 columns; -1, -128, -32768 in int8/int16 columns); a centre without object; no patch method; target exists as {catalog, directory "
-    "with foreign content, empty directory, regular file, directory holding only foreign files named patch_*, the same plus a patch_0 directory} x overwrite {F,T}; parent directory missing; exception "
+    "-1|32768|65538|-65535 (int64 columns; -1, -128, -32768 in int8/int16 columns; NaN in a float column); a centre without object; no patch method; target exists as {catalog, directory "
+    "with foreign content, empty directory, regular file, directory holding only foreign files named patch_*, the same plus a patch_0 directory} x overwrite {F,T}; an existing catalog without overwrite together with faulty input; parent directory missing; exception "
     "injected into the k-th worker task / the k-th writer call; overwrite + late fault} x chunk position "
     "{first, middle, last} x source {data frame, HDF5} x workers {1,2,3}; for W>1 every schedule of the "
     "virtual pool/queue/writer-process pipeline (partial-order reduced, see DESIGN.md E3b). Oracle: the call "
@@ -66,6 +66,9 @@ def cases(tier, seed):
     # negative ids in columns stored as narrow integers (no wider than the library's own id type)
     for (val, dt), pos in itertools.product(((-1, "i1"), (-128, "i1"), (-1, "i2"), (-32768, "i2")), POS):
         out.append(dict(fault="patch-id", val=val, pos=pos, source="frame", id_dtype=dt))
+    # an undefined index in an id column of floating-point type
+    for pos in POS:
+        out.append(dict(fault="patch-id", val="nan", pos=pos, source="frame", id_dtype="f8"))
         if tier != "quick":
             out.append(dict(fault="patch-id", val=val, pos=pos, source="hdf"))
     out.append(dict(fault="length", source="hdf"))
@@ -85,6 +88,9 @@ def cases(tier, seed):
         out.append(dict(fault="inject", where=where, k=k, source="frame"))
     for pos in POS:
         out.append(dict(fault="overwrite-then-fault", pos=pos, source="frame"))
+    # two faults at once: the target is an existing catalog, overwriting was not requested, and the input is faulty
+    for pos in POS:
+        out.append(dict(fault="exists-and-fault", pos=pos, source="frame"))
     out.append(dict(fault="none", source="frame"))
     out.append(dict(fault="none", source="hdf"))
     for n, chunk in ((7, 3), (5, 5), (7, 4), (3, 1)):  # chunk lengths that are no multiple of the worker count
@@ -137,7 +143,7 @@ class Scenario:
         if f == "patch-id":
             self.mode = "ids"
             cols["pid"] = cols["pid"].copy().astype(case.get("id_dtype", "i8"))
-            cols["pid"][POS[case["pos"]]] = case["val"]
+            cols["pid"][POS[case["pos"]]] = np.nan if case["val"] == "nan" else case["val"]
         if f == "missing-column":
             self.kw["weight_name"] = "nope"
         if f == "empty-centre":
@@ -151,7 +157,7 @@ class Scenario:
             self.kw["patch_centers"] = AngularCoordinates(np.deg2rad(CENTRES))
         self.cols = cols
         self.overwrite = bool(case.get("overwrite", f == "overwrite-then-fault"))
-        if f == "overwrite-then-fault":
+        if f in ("overwrite-then-fault", "exists-and-fault"):
             cols["ra"] = cols["ra"].copy()
             cols["ra"][POS[case["pos"]]] = np.nan
         self.df = pd.DataFrame(cols) if f != "length" else None
@@ -175,12 +181,16 @@ class Scenario:
         target = os.path.join(d, "cat")
         if f == "parent-missing":
             return os.path.join(d, "no", "such", "parent", "cat"), None
-        pre = case.get("pre") if f == "exists" else ("catalog" if f == "overwrite-then-fault" else None)
+        pre = case.get("pre") if f == "exists" else ("catalog" if f in ("overwrite-then-fault", "exists-and-fault") else None)
         if pre == "catalog":
+            # (the prior catalog is created sequentially; the worker count of the attempt itself is restored)
+            workers = os.environ.get("YAW_NUM_THREADS")
             yawx.sequential()
             old = yawx.make_catalog(target, [100.0, 101.0, 130.0, 131.0], [0.0, 1.0, 0.0, 1.0],
                                     w=[7.0, 8.0, 9.0, 10.0], z=[0.9, 0.91, 0.92, 0.93], pid=[0, 0, 1, 1])
             del old
+            if workers is not None:
+                os.environ["YAW_NUM_THREADS"] = workers
         elif pre == "foreign-dir":
             os.makedirs(os.path.join(target, "precious"))
             with open(os.path.join(target, "precious", "thesis.tex"), "w") as fh:
@@ -365,6 +375,12 @@ def run_case(case):
 
         try:
             res = vmp.explore(body, observe=observe, max_exec=3000, focus=-1)
+            if res["capped"]:
+                # more interleavings than on the pinned tree (never happens there): fall back to all schedules with
+                # at most two deviations from the default one and say so in the counters
+                outs.clear()
+                res = vmp.explore(body, observe=observe, max_exec=6000, focus=-1, bound=2)
+                counters["deviation_bounded_fallbacks"] = counters.get("deviation_bounded_fallbacks", 0) + 1
         finally:
             vmp.uninstall()
             yawx.sequential()
